@@ -122,6 +122,16 @@ fn main() {
             cleanup_scratch();
             0
         }
+        Some("trace") => {
+            // print the trace of the scenario stored in a replay file (any E2/E3 part)
+            init_scratch();
+            let body: serde_json::Value = serde_json::from_str(&std::fs::read_to_string(&args[2]).expect("read")).expect("json");
+            let sc: cfdp_verif::sim::Scenario = serde_json::from_value(body["case"]["sc"].clone()).expect("case.sc is not a scenario");
+            let tr = cfdp_verif::sim::run_scenario(&sc);
+            println!("{}", tr.render(600));
+            cleanup_scratch();
+            0
+        }
         _ => {
             eprintln!("usage: cfdp-verif check <ID> <quick|thorough> | replay <file>");
             2
